@@ -315,6 +315,34 @@ func (w *world) parentView(st absState, prices fees.Dimensions) (merkledb.View, 
 	return db, err
 }
 
+// nameOf maps a real state key to its abstract name (metadata, balance, universe key, or other:<hex>).
+func (w *world) nameOf(key string) string {
+	switch key {
+	case string(chain.HeightKey(w.mm.HeightPrefix())):
+		return "meta:height"
+	case string(chain.TimestampKey(w.mm.TimestampPrefix())):
+		return "meta:timestamp"
+	case string(chain.FeeKey(w.mm.FeePrefix())):
+		return "meta:fee"
+	}
+	for _, a := range w.accounts {
+		if key == string(w.bh.BalanceKey(w.addr[a])) {
+			return "bal:" + a
+		}
+	}
+	for _, k := range w.keyNames {
+		for d := uint16(0); d < 3; d++ {
+			if key == string(keyBytes(k, w.chunks[k]+d)) {
+				if d == 0 {
+					return k
+				}
+				return fmt.Sprintf("%s#%d", k, w.chunks[k]+d)
+			}
+		}
+	}
+	return "other:" + hex.EncodeToString([]byte(key))
+}
+
 // project reads the abstract state back from a view through its public GetValue.
 func (w *world) project(v state.Immutable) (absState, error) {
 	ctx := context.Background()
@@ -571,7 +599,7 @@ type blockOutcome struct {
 	Post     absState   `json:"post"`
 	Root     string     `json:"root"`
 	MaxPar   int        `json:"maxpar"`
-	Reads    []string   `json:"-"`
+	Reads    []string   `json:"reads"`
 	view     merkledb.View
 	blk      *chain.ExecutionBlock
 }
@@ -638,7 +666,7 @@ func (w *world) runBlock(parent merkledb.View, parentID ids.ID, height uint64, t
 	case <-time.After(60 * time.Second):
 		return nil, fmt.Errorf("HANG: Processor.Execute did not return within 60s")
 	}
-	oc := &blockOutcome{Err: errClass(r.err), blk: eb, Results: []txResult{}}
+	oc := &blockOutcome{Err: errClass(r.err), blk: eb, Results: []txResult{}, Reads: []string{}}
 	// unit prices this block must use: the fee-market rule applied to the parent's fee state (C13 checks the rule)
 	if feeRaw, ferr := parent.GetValue(ctx, chain.FeeKey(w.mm.FeePrefix())); ferr == nil {
 		oc.Expected = dims(internalfees.NewManager(feeRaw).ComputeNext(ts, w.rules).UnitPrices())
@@ -651,7 +679,7 @@ func (w *world) runBlock(parent merkledb.View, parentID ids.ID, height uint64, t
 	}
 	rv.mu.Lock()
 	for k := range rv.reads {
-		oc.Reads = append(oc.Reads, k)
+		oc.Reads = append(oc.Reads, w.nameOf(k))
 	}
 	rv.mu.Unlock()
 	sort.Strings(oc.Reads)
